@@ -13,11 +13,13 @@ import (
 	"io"
 	"os"
 	"path/filepath"
+	"strings"
 
 	"github.com/google/gce-tcb-verifier/cmd"
 	"github.com/google/gce-tcb-verifier/endorse"
 	"github.com/google/gce-tcb-verifier/keys"
 	"github.com/google/gce-tcb-verifier/storage/local"
+	"github.com/google/gce-tcb-verifier/testing/nonprod/localnonvcs"
 	"github.com/spf13/cobra"
 
 	"verifharness/fx"
@@ -25,7 +27,7 @@ import (
 )
 
 type cliGlobal struct {
-	w  *World
+	w  *World // nil: the version-control backend is left to the Endorse component (the disk-backed one)
 	kc *keys.Context
 }
 
@@ -41,7 +43,9 @@ func (g *cliGlobal) InitContext(ctx context.Context) (context.Context, error) {
 	if err != nil {
 		return nil, err
 	}
-	ec.VCS = g.w
+	if g.w != nil {
+		ec.VCS = g.w
+	}
 	return ctx, nil
 }
 
@@ -65,6 +69,57 @@ func runEndorseCLI(cfg Cfg, args []string) *Obs {
 	return o
 }
 
+// treeOf lists every file and directory under dir (names and sizes).
+func treeOf(dir string) string {
+	var b strings.Builder
+	filepath.Walk(dir, func(p string, info os.FileInfo, err error) error {
+		if err == nil && p != dir {
+			fmt.Fprintf(&b, "%s:%d;", strings.TrimPrefix(p, dir), info.Size())
+		}
+		return nil
+	})
+	return b.String()
+}
+
+// diskModes: the command assembled with the repository's disk-backed version control
+// (testing/nonprod/localnonvcs as the Endorse component): a dry run or a measurement-only run into a
+// directory that does not exist yet leaves the file system exactly as it was.
+func diskModes(run *vk.Run, fw string) {
+	ca, signer, err := fx.DevAuthority()
+	if err != nil {
+		run.Infra(err)
+		return
+	}
+	for _, mode := range [][]string{{"--dry_run"}, {"--measurement_only"}, {"--measurement_only", "--dry_run"}, {"--dry_run", "--snapshot_dir", "fresh/snap"}} {
+		outRoot, err := os.MkdirTemp("", "vk-c15-disk-")
+		if err != nil {
+			run.Infra(err)
+			return
+		}
+		w := &World{Root: root, OutDir: outDir, Head: map[string][]byte{}, D: passDecider{}}
+		g := &cliGlobal{kc: &keys.Context{CA: &CA{CertificateAuthority: ca, W: w}, Signer: &Signer{Signer: signer, W: w}}}
+		app := cmd.MakeApp(context.Background(), &cmd.AppComponents{Global: g, Endorse: &localnonvcs.T{}, SignatureRandom: rand.Reader, Storage: &local.StorageClient{}})
+		app.SetOut(io.Discard)
+		app.SetErr(io.Discard)
+		app.SilenceErrors, app.SilenceUsage = true, true
+		app.SetArgs(append([]string{"endorse", "--quiet", "--uefi", fw, "--add_snp", "--snp_launch_vmsas", "1", "--clspec", "5", "--out_root", outRoot, "--out_dir", "fresh/out"}, mode...))
+		cfg := Cfg{DryRun: strings.Contains(strings.Join(mode, " "), "dry_run"), MeasOnly: mode[0] == "--measurement_only"}
+		o := &Obs{Cfg: cfg, Wiring: "endorse command + localnonvcs", Head0: map[string][]byte{}, Head: map[string][]byte{}}
+		before := treeOf(outRoot)
+		runVFWith(func() error { return app.Execute() }, cfg, w, o)
+		after := treeOf(outRoot)
+		os.RemoveAll(outRoot)
+		name := "endorse command with the disk-backed version control, " + strings.Join(mode, " ")
+		run.Case("cli-disk|"+name, true)
+		if o.Ret != "ok" {
+			run.Violation("command-mode-fails", fmt.Sprintf("%s returns %s (%s)", name, o.Ret, o.RetErr), nil)
+		}
+		if before != after {
+			run.Violation("dry-run-write:disk", fmt.Sprintf("%s changed the file system under --out_root: %q", name, after), map[string]any{"mode": mode, "tree_after": after})
+		}
+	}
+}
+
 // sweepC15CLI: real run, dry run and measurement-only run of the same command line (with an SVSM
 // measurement file and an explicit timestamp, without them, with a snapshot directory).
 func sweepC15CLI(run *vk.Run) {
@@ -78,6 +133,7 @@ func sweepC15CLI(run *vk.Run) {
 	svsm := filepath.Join(dir, "svsm.txt")
 	os.WriteFile(fw, img2M, 0o600)
 	os.WriteFile(svsm, []byte(hex.EncodeToString(fx.Sha384([]byte("svsm measurement")))+"\n"), 0o600)
+	diskModes(run, fw)
 	for _, withSvsm := range []bool{false, true} {
 		for _, withTime := range []bool{false, true} {
 			for _, snap := range []bool{false, true} {
@@ -116,6 +172,69 @@ func sweepC15CLI(run *vk.Run) {
 				}
 				if meas.Ret == "ok" && realO.Ret == "ok" && meas.Stdout != measDry.Stdout {
 					run.Violation("measurement-only-differs", "measurement-only prints something else with --dry_run than without ["+name+"]", map[string]any{"plain": meas.Stdout, "with_dry_run": measDry.Stdout})
+				}
+			}
+		}
+	}
+}
+
+// failOp fails one kind of call with a fixed outcome, every time.
+type failOp struct{ op, out string }
+
+func (f failOp) Decide(op string, _ int, natural string) string {
+	if strings.HasPrefix(op, f.op) {
+		return f.out
+	}
+	return natural
+}
+func (failOp) OthersBefore(string) int { return 0 }
+
+// severalBackends: a request that names several version-control backends (Context.VCSs). The run
+// reports success exactly when the commit landed on every backend it names, whatever the
+// keep-going setting; a backend whose submission failed is never reported as done.
+func severalBackends(run *vk.Run) {
+	ca, signer, err := fx.DevAuthority()
+	if err != nil {
+		run.Infra(err)
+		return
+	}
+	for _, keepGoing := range []bool{false, true} {
+		for _, fail := range []failOp{{"Commit", "permanent"}, {"Commit", "retriable"}, {"GetOps", "permanent"}, {"ReadMan", "permanent"}, {"", ""}} {
+			for _, failing := range []int{0, 1, 2} {
+				ws := []*World{}
+				var vcss []endorse.VersionControl
+				for k := 0; k < 3; k++ {
+					w := &World{Root: root, OutDir: outDir, Head: map[string][]byte{}, D: passDecider{}}
+					if k == failing && fail.op != "" {
+						w.D = fail
+					}
+					ws = append(ws, w)
+					vcss = append(vcss, w)
+				}
+				kc := &keys.Context{CA: ca, Signer: signer, Random: fx.NewLockedRand(3)}
+				ectx := &endorse.Context{SevSnp: request(), Image: imgMine, ClSpec: 12345, Timestamp: fx.DevNow, VCSs: vcss, CommitRetries: 1, OutDir: outDir}
+				var rerr error
+				func() {
+					defer func() {
+						if p := recover(); p != nil {
+							rerr = fmt.Errorf("PANIC: %v", p)
+						}
+					}()
+					rerr = endorse.VirtualFirmware(endorse.NewContext(fx.Ctx(kc, false, keepGoing), ectx))
+				}()
+				landed := 0
+				for _, w := range ws {
+					if len(w.Head) > 0 {
+						landed++
+					}
+				}
+				name := fmt.Sprintf("backends=3 failing=%d (%s %s) keep_going=%v", failing, fail.op, fail.out, keepGoing)
+				run.Case("several-backends:"+name, true)
+				if rerr == nil && landed != 3 {
+					run.Violation("success-without-commit:several-backends", fmt.Sprintf("the run reports success although the commit landed on %d of the 3 backends it names [%s]", landed, name), map[string]any{"case": name})
+				}
+				if rerr != nil && fail.op == "" {
+					run.Violation("failure-without-fault:several-backends", fmt.Sprintf("the run fails without any backend failing: %v [%s]", rerr, name), nil)
 				}
 			}
 		}
